@@ -281,12 +281,33 @@ def execute(plan: dict, ctx: dict) -> dict:
                 return None
         return [{t: np.asarray(v) for t, v in o.items()} for o in outs]
 
-    def values_stable(outs, where):
+    def floors(m):
+        """relative response of the model to a 1e-6 relative jitter of each probe: how far float32 rounding alone can
+        move the output (a vector LayerNorm of a rank-deficient field, e.g. vectors derived from one scalar channel, is
+        chaotic: eager and jitted evaluation then differ by tens of percent on every input)"""
+        from .e2_train import jitter
+
+        out = []
+        for i, xp in enumerate([x] + extra_probes):
+            try:
+                a = zoo.call_model(m, xp)
+                b = zoo.call_model(m, jitter(xp, 31 + i))
+                f = 0.0
+                for t in a.keys():
+                    scale = max(1.0, float(np.max(np.abs(np.asarray(a[t])))))
+                    f = max(f, float(np.max(np.abs(np.asarray(a[t]) - np.asarray(b[t])))) / scale)
+                out.append(f)
+            except Exception:
+                out.append(float("inf"))
+        return out
+
+    def values_stable(outs, where, model_now=None):
         prev = last["outs"]
         if prev is None or outs is None:
             return
         worst = None
-        for o, pv in zip(outs, prev):
+        fl = None
+        for pi, (o, pv) in enumerate(zip(outs, prev)):
             d_probe = 0.0
             for t in pv:
                 if t not in o or o[t].shape != pv[t].shape or not (np.all(np.isfinite(o[t])) and np.all(np.isfinite(pv[t]))):
@@ -297,6 +318,12 @@ def execute(plan: dict, ctx: dict) -> dict:
                 if d_probe > 0:
                     bump("identity_event_rounding_diffs")
                 return  # at least one probe is unchanged: not a systematic change
+            if model_now is not None:
+                if fl is None:
+                    fl = floors(model_now)
+                if not (d_probe > 30.0 * fl[pi]):
+                    bump("ill_conditioned_model_in_value_comparison")
+                    return
             worst = d_probe if worst is None else min(worst, d_probe)
         viol("C20", "values_change_across_identity_event", {"after": where, "min_relative_diff_over_3_probes": worst, "history": kinds[:]}, f"{site0}/values_change/{where.split(':')[0]}")
 
@@ -320,7 +347,7 @@ def execute(plan: dict, ctx: dict) -> dict:
             # types into channels in storage order, so a re-ordered input is a different channel layout; only the
             # signature is checked for it)
             if kind0 in ("tree_map", "inference", "save_load"):
-                values_stable(outs, where)
+                values_stable(outs, where, m)
             if kind0 != "transported_input":
                 last["outs"] = outs
         return out
@@ -368,7 +395,7 @@ def execute(plan: dict, ctx: dict) -> dict:
                         else:
                             jf = eqx.filter_jit(lambda m, xx: zoo.call_model(m, xx))
                             try:
-                                values_stable([{t: np.asarray(v) for t, v in o.items()} for o in [out] + [jf(model, xp) for xp in extra_probes]], "jit_call")
+                                values_stable([{t: np.asarray(v) for t, v in o.items()} for o in [out] + [jf(model, xp) for xp in extra_probes]], "jit_call", model)
                             except Exception:
                                 pass
                         if err is not None:
